@@ -195,6 +195,34 @@ def validateWithName (C : Crypto) (decode : Bytes → Option Node) (parseTime : 
   | .error e => .error e
   | .ok pk => validate C decode parseTime now r pk
 
+/-- `Validator.getPublicKey`: only "the record and the name carry no key" (peer.ErrNoPublicKey) falls
+through to the key book; every other extraction error is returned. `book = none` is a nil KeyBook. -/
+def getPublicKey (C : Crypto) (book : Option (Nat → Option Nat)) (r : Record) (name : Nat) : Except Err Nat :=
+  match extractKey C r name with
+  | .ok pk => .ok pk
+  | .error .keyNotFound =>
+    match book with
+    | none => .error .keyNotFound
+    | some kb =>
+      match kb name with
+      | none => .error .keyNotFound
+      | some pk => .ok pk
+  | .error e => .error e
+
+/-- `Validator{KeyBook: book}.Validate(key, value)`: `name` = NameFromRoutingKey(key) (`none` = error) -/
+def validatorValidateKB (C : Crypto) (decode : Bytes → Option Node) (parseTime : Bytes → Option Int)
+    (now : Int) (book : Option (Nat → Option Nat)) (name : Option Nat) (rawLen : Nat) (pb : Option Pb) :
+    Except Err Unit :=
+  match name with
+  | none => .error .invalidName
+  | some name =>
+    match unmarshal decode rawLen pb with
+    | .error e => .error e
+    | .ok r =>
+      match getPublicKey C book r name with
+      | .error e => .error e
+      | .ok pk => validate C decode parseTime now r pk
+
 /-- `Validator{KeyBook: nil}.Validate(key, value)`: `name` = NameFromRoutingKey(key) (`none` = error) -/
 def validatorValidate (C : Crypto) (decode : Bytes → Option Node) (parseTime : Bytes → Option Int)
     (now : Int) (name : Option Nat) (rawLen : Nat) (pb : Option Pb) : Except Err Unit :=
